@@ -109,6 +109,17 @@ func init() {
 			p.intent.Why = map[int]string{AuthTypeWebauthForCLI: "expired-accepted"}
 		default:
 			p.intent.Claims = append(p.intent.Claims, vfClaim{AuthTypeWebauthForCLI, subject})
+			// the redeeming browser session has to hold what the web UI demands, like the one the token was shown to
+			if r.Basic == nil && s.Cert == "" {
+				need := 0
+				for _, b := range w.cfg.WebUIBackends {
+					need |= vfCertBackendBits[b]
+				}
+				if ci := w.model.cookies[r.Cookies[authCookieName]]; ci != nil && ci.Carried&need == 0 {
+					p.intent.Claims = p.intent.Claims[:len(p.intent.Claims)-1]
+					p.intent.Why = map[int]string{AuthTypeWebauthForCLI: "redeemed-below-webui-level"}
+				}
+			}
 		}
 		p.after = func(resp *vfResp) {
 			if resp.Code != 308 {
